@@ -125,6 +125,14 @@ func newWorld(t testing.TB, srih bool, preload int) (*world, error) {
 
 func (w *world) close() { w.ref.Close() }
 
+func (w *world) pubs() keys.PublicKeys {
+	out := make(keys.PublicKeys, len(w.keys))
+	for i, k := range w.keys {
+		out[i] = k.PublicKey()
+	}
+	return out
+}
+
 // newTx builds a valid GAS transfer from the validators' multisignature account.
 func (w *world) newTx(vub uint32) *transaction.Transaction {
 	w.ntx++
